@@ -270,7 +270,37 @@ def t8(run, tu, pname, prims):
 FLOAT_NAMES = {'float', 'double', 'long double'}
 
 
-def witness(run, tu, rows, F, thorough):
+def ir_table(run):
+    """the table of new_primitive_type as the compiler folded it: {name: (size, align, flags)} read from the
+    LLVM IR of the backend translation unit (clang -S -emit-llvm -O0; nothing is linked or run)"""
+    from ..cast.loader import repo_root, py_include, BACKEND_FLAGS
+    root = repo_root()
+    tmp = tempfile.mkdtemp(prefix='verif-c06-ir-', dir='/var/tmp')
+    try:
+        out = os.path.join(tmp, 'be.ll')
+        r = subprocess.run(['clang', '-S', '-emit-llvm', '-O0', '-w'] + BACKEND_FLAGS + ['-I' + py_include(),
+                            os.path.join(root, 'src/c/_cffi_backend.c'), '-o', out], capture_output=True, text=True)
+        if r.returncode != 0:
+            raise AnalysisError('C06: clang could not emit IR for the backend: %s' % r.stderr[-400:])
+        with open(out) as f:
+            ir = f.read()
+    finally:
+        shutil.rmtree(tmp, ignore_errors=True)
+    m = re.search(r'^@new_primitive_type\.types = internal constant \[(\d+) x %struct\.descr_s\] \[(.*)\], align', ir, re.M)
+    if not m:
+        raise AnalysisError('anchor vanished: the static table `types` of new_primitive_type in the IR')
+    strs = dict(re.findall(r'^(@\.str(?:\.\d+)?) = private unnamed_addr constant \[\d+ x i8\] c"([^"]*)\\00"', ir, re.M))
+    rows = re.findall(r'%struct\.descr_s \{ i8\* getelementptr inbounds \(\[\d+ x i8\], \[\d+ x i8\]\* (@\.str(?:\.\d+)?), i32 0, i32 0\), i32 (-?\d+), i32 (-?\d+), i32 (-?\d+) \}', m.group(2))
+    table = {}
+    for sref, size, align, flags in rows:
+        if sref not in strs:
+            raise AnalysisError('C06: string %s of the IR table not found' % sref)
+        table[strs[sref]] = (int(size), int(align), int(flags))
+    run.need(len(table) + 1 >= int(m.group(1)), 'IR table: parsed %d of %s rows' % (len(table), m.group(1)))
+    return table
+
+
+def witness(run, tu, rows, F, thorough, irt=None):
     """(f) compile-only: the exported name, as the platform compiler understands it with the
     standard headers, has the size/alignment/signedness of the type the row measures and of its flag"""
     typedefs = {}
@@ -293,6 +323,15 @@ def witness(run, tu, rows, F, thorough):
         lines.append('struct al_s_%d { char x; std_%d y; }; struct al_m_%d { char x; meas_%d y; };' % (i, i, i, i))
         asserts.append(('size', r, '_Static_assert(sizeof(std_%d) == sizeof(meas_%d), "size of %s");' % (i, i, r['name'])))
         asserts.append(('align', r, '_Static_assert(offsetof(struct al_s_%d, y) == offsetof(struct al_m_%d, y), "alignment of %s");' % (i, i, r['name'])))
+        if irt is not None:
+            if r['name'] not in irt:
+                run.ob('f/compiler-witness-ir-row', 'new_primitive_type', 'row %s present in the folded table' % r['name'], False, r['site'])
+            else:
+                sz, al, ifl = irt[r['name']]
+                run.ob('f/compiler-witness-ir-row', 'new_primitive_type', 'flags of row %s in the folded table equal the flags read from the AST' % r['name'],
+                       ifl == r['flags'], r['site'], 'IR %#x, AST %#x' % (ifl, r['flags']))
+                asserts.append(('size', r, '_Static_assert(sizeof(std_%d) == %d, "folded size of %s");' % (i, sz, r['name'])))
+                asserts.append(('align', r, '_Static_assert(_Alignof(std_%d) == %d, "folded alignment of %s");' % (i, al, r['name'])))
         fl = r['flags']
         if fl & (F['CT_PRIMITIVE_SIGNED'] | F['CT_PRIMITIVE_UNSIGNED']):
             want_signed = 1 if fl & F['CT_PRIMITIVE_SIGNED'] else 0
@@ -440,7 +479,7 @@ def check(run):
                'model kind %r, backend flags %#x' % (k, r['flags']))
     t6(run, tu, pname, prims)
     t8(run, tu, pname, prims)
-    witness(run, tu, rows, F, thorough)
+    witness(run, tu, rows, F, thorough, ir_table(run))
     t9(run, tu, set(rownames))
     run.min_instances('a/header-and-python-agree', 75)
     run.min_instances('b/index-to-name-inverts-name-to-index', 50)
